@@ -66,7 +66,12 @@ var rateOverride func() ([]rateSpec, error)
 // perSourceRates, when set while a limiter is built, gives individual sources their own rate set through the extractor
 var perSourceRates map[string][]rateSpec
 
-func drawRateSource(rt *rapid.T) { viaExtractor = rapid.Bool().Draw(rt, "rates-via-extractor") }
+var slowRateLogger bool
+
+func drawRateSource(rt *rapid.T) {
+	viaExtractor = rapid.Bool().Draw(rt, "rates-via-extractor")
+	slowRateLogger = rapid.IntRange(0, 2).Draw(rt, "slow-logger") == 0
+}
 
 func newTLim(rt *rapid.T, rates []rateSpec, capacity int) *tlim {
 	mk := func() *ratelimit.RateSet {
@@ -88,6 +93,9 @@ func newTLim(rt *rapid.T, rates []rateSpec, capacity int) *tlim {
 	var opts []ratelimit.TokenLimiterOption
 	if capacity > 0 {
 		opts = append(opts, ratelimit.Capacity(capacity))
+	}
+	if slowRateLogger {
+		opts = append(opts, ratelimit.Logger(simkit.SlowLogger{}))
 	}
 	if rateOverride != nil {
 		ro := rateOverride
